@@ -283,6 +283,13 @@ func rk(s string) string {
 	return s
 }
 
+func (ts *taskState) callerVer(w *world, key string) string {
+	if w.c.Knob("caller_versions", 0) == 0 {
+		return ""
+	}
+	return ts.pickVer(key, 0)
+}
+
 func split(s string) []string {
 	if s == "" {
 		return nil
@@ -405,7 +412,9 @@ func (w *world) doOp(ctx context.Context, ts *taskState, op sim.Op, i int) {
 		return
 	case "create":
 		exp := expOf(op.D, t0)
-		ver, err := ts.cl.Create(ctx, kvs.Record{Key: op.S, Value: []byte(op.V), ExpiresAt: exp})
+		// knob caller_versions: records are passed as they were read earlier (Version set); the
+		// storage assigns a fresh version all the same
+		ver, err := ts.cl.Create(ctx, kvs.Record{Key: op.S, Value: []byte(op.V), ExpiresAt: exp, Version: ts.callerVer(w, op.S)})
 		o = outcome{Err: classify(err), Ver: ver}
 		t1 := time.Now()
 		if err == nil || o.Err == "ErrExist" {
@@ -491,7 +500,7 @@ func (w *world) doOp(ctx context.Context, ts *taskState, op sim.Op, i int) {
 			op.V = "prev=" + ts.pickVer(op.S, 0)
 		}
 		exp := expOf(op.D, t0)
-		r, err := ts.cl.Put(ctx, kvs.Record{Key: op.S, Value: []byte(op.V), ExpiresAt: exp})
+		r, err := ts.cl.Put(ctx, kvs.Record{Key: op.S, Value: []byte(op.V), ExpiresAt: exp, Version: ts.callerVer(w, op.S)})
 		o = recOut(r, err)
 		if err == nil {
 			ts.see(op.S, r.Version)
